@@ -201,6 +201,7 @@ PROPERTIES = {
   },
   'C06': {
     'verus': ['litgate', 'errgate', 'checkgates', 'visgate', 'ssascope', 'usegates', 'ssanames'],
+    'quick_witness': ['gen_rejects'],
     'kani': [],
     'level': 'proof',
     'scope': 'two kernels only: an integer literal outside the 32-bit range is reported (TokenProducer::process_raw_token); an error '
@@ -211,7 +212,7 @@ PROPERTIES = {
              'use sites: a call with too many or too few arguments is reported, the condition of an if-else is checked against bool and its else branch against the first branch, '
              'an object pattern stores each field\'s abstract pattern in the column of the field it names; every type / class name written in an annotation or in the explicit '
              'type arguments of a member access is looked up (visit_annot, visit_id_annot, use_id); the other checker-side clauses of C06 '
-             '(conformance, the exhaustiveness algorithm itself, resolution of members) are exercised only by the bounded single-fault corpus',
+             '(conformance, the exhaustiveness algorithm itself, resolution of members) are exercised only by the bounded single-fault corpus and the faults planted in generated programs (gen_rejects)',
   },
   'C08': {
     'verus': ['paren', 'strlit', 'ifchain', 'lexer'],
